@@ -39,7 +39,7 @@ fn main() {
         sh.case(if trivial { None } else { Some(fnv_mix(fnv(&image), image.len() as u64)) });
         let chunk = if rng.bool() { 4 } else { 8 };
         probe_queries(&mut sh, case, kind, &image, chunk);
-        if rng.chance(1, 40) && args.extra_u64("no-init", 0) == 0 {
+        if (rng.chance(1, 40) || kind == "pdo-sum-near-u16-max") && args.extra_u64("no-init", 0) == 0 {
             init_on_device(&mut sh, case, kind, &image, &mut rng);
         }
         if sh.wants_sample() && kind != "random" && case > 3 {
@@ -86,7 +86,7 @@ fn gen_image(rng: &mut Rng, case: u64) -> (&'static str, Vec<u8>) {
         build_sii(&d)
     };
     let _ = case;
-    match rng.below(19) {
+    match rng.below(20) {
         0 => {
             let n = *rng.pick(&[0usize, 1, 3, 16, 127, 128, 129, 200, 1024, 4096]);
             ("random", rng.bytes(n))
@@ -217,6 +217,30 @@ fn gen_image(rng: &mut Rng, case: u64) -> (&'static str, Vec<u8>) {
                 put16(&mut img, t + 2, *rng.pick(&[0x0040u16, 0x0040, 0x003e, 0x0041, 0, 1, 2, 0xfffe, 0xffff, 0x8000]));
             }
             ("next-header-at-top-of-address-space", img)
+        }
+        18 => {
+            // process data of one sync manager adding up to 65529..=65535 bits (and just above):
+            // the last values a u16 bit count can hold, where "+ 7" for the byte rounding overflows
+            let mut d = DeviceDesc::simple("EDGE");
+            d.sms = vec![SmDesc { start: 0x1000, len: 0, control: 0x20, enable: 1, usage: 4 }, SmDesc { start: 0x3000, len: 0, control: 0x64, enable: 1, usage: 3 }];
+            d.fmmus = vec![2, 1];
+            let tx = rng.bool();
+            let sm = if tx { 0 } else { 1 };
+            let target: u32 = *rng.pick(&[65529u32, 65530, 65531, 65532, 65533, 65534, 65535, 65536, 65528, 65527]);
+            let mut left = target;
+            let mut k = 0u16;
+            while left > 0 {
+                let mut entries = vec![];
+                while left > 0 && entries.len() < 255 {
+                    let b = left.min(255);
+                    entries.push(PdoEntryDesc { index: 0x6000 + k, sub: entries.len() as u8, bits: b as u8 });
+                    left -= b;
+                }
+                d.pdos.push(PdoDesc { index: if tx { 0x1a00 } else { 0x1600 } + k, sm, tx, entries });
+                k += 1;
+            }
+            d.eeprom_bytes = 16384;
+            ("pdo-sum-near-u16-max", build_sii(&d))
         }
         17 => {
             // a strings category that is present but says it holds no strings (or fewer than are
